@@ -7,6 +7,8 @@ SolvedMazeMonitor SolvedMaze.__init__-> start/end equal the solution's ends (C03
 
 from __future__ import annotations
 
+import threading
+
 import numpy as np
 
 from . import oracles
@@ -40,10 +42,10 @@ def install(ctx, generators=True, solver=True, solved=True, max_solver_cells=400
                 d["__grid_shape__"] = None if gs is None else np.array(gs).copy()
                 if isinstance(d.get("start_coord"), np.ndarray):
                     d["start_coord"] = d["start_coord"].copy()
-                entry[id(fr)] = d
+                entry[(threading.get_ident(), id(fr))] = d
 
             def on_ret(fr, retval, _gen=gen):
-                d = entry.pop(id(fr), None)
+                d = entry.pop((threading.get_ident(), id(fr)), None)
                 if d is None:
                     return
                 gs = d.pop("__grid_shape__")
@@ -62,7 +64,7 @@ def install(ctx, generators=True, solver=True, solved=True, max_solver_cells=400
                     ctx.tally("ambient:monitor-crash")
 
             def on_unw(fr, exc):
-                entry.pop(id(fr), None)
+                entry.pop((threading.get_ident(), id(fr)), None)
 
             P.on_start(fn, on_start, name=gen)
             P.on_return(fn, on_ret, name=gen)
